@@ -305,6 +305,58 @@ Definition validate_ok (old_t : Z) (sub key_peers store : list Z) (accepted : bo
   implb accepted (validate_accepts old_t sub key_peers store)
   && implb (validate_required old_t sub key_peers store) accepted.
 
+(* ------------------------------------------------------------------------------------------------ *)
+(* Who may coordinate a session.  tss.Coordinator elects, on every relayer separately, the relayer
+   that sorts first for the session id among the candidates the relayer's own process names
+   (ValidCoordinators); all the others wait for THAT relayer's initiate and start messages.
+     keygen     keygen.go      Host.Peerstore().Peers()            anybody of the committee-to-be
+     signing    signing.go     key.Peers                           the holders of the key
+     resharing  resharing.go   key.Peers that are in the peerstore the holders of the OLD key that take
+                                                                   part in the refresh; a relayer that
+                                                                   is only joining names nobody and
+                                                                   takes whoever initiates
+   [key_peers] = the committee the relayer's stored key share lists ([] = no share), [store] = the
+   relayer's peerstore (the committee after the refresh).  A coordinator of a refresh that holds no old
+   share sends start parameters everybody rejects (old threshold 0); one that is not in the peerstore
+   takes no part in the refresh and is waited for in vain: either way the (non-retryable) refresh fails
+   for the session ids for which such a candidate sorts first. *)
+Inductive proc_kind := PKeygen | PSigning | PResharing.
+
+Definition coordinator_candidates (k : proc_kind) (key_peers store : list Z) : list Z :=
+  match k with
+  | PKeygen => store
+  | PSigning => key_peers
+  | PResharing => filter (fun p => memZ p store) key_peers
+  end.
+
+(* tss/frost/resharing before fix 2f3fd0e (/repo): every peer of the stored key share, also those that leave *)
+Definition old_frost_resharing_candidates (key_peers store : list Z) : list Z := key_peers.
+
+Definition subsetZ (a b : list Z) : bool := forallb (fun x => memZ x b) a.
+
+(* THE JUDGE of the candidates a real process names: every candidate is somebody the session can be
+   coordinated by (keygen: a relayer of the peerstore; signing: a key holder; resharing: a holder of
+   the old key that is in the peerstore), and there is a candidate whenever such a relayer exists *)
+Definition candidates_ok (k : proc_kind) (key_peers store impl : list Z) : bool :=
+  match k with
+  | PKeygen => subsetZ impl store && implb (negb (is_nil store)) (negb (is_nil impl))
+  | PSigning => subsetZ impl key_peers && implb (negb (is_nil key_peers)) (negb (is_nil impl))
+  | PResharing =>
+      subsetZ impl key_peers && subsetZ impl store
+      && implb (negb (is_nil (filter (fun p => memZ p store) key_peers))) (negb (is_nil impl))
+  end.
+
+(* the static election: the candidate of the smallest rank (rank = where Keccak(id || session id)
+   puts the relayer; comm/elector/static.go takes SortPeersForSession(candidates)[0]) *)
+Fixpoint elect (rank : Z -> Z) (cands : list Z) : option Z :=
+  match cands with
+  | [] => None
+  | c :: r => match elect rank r with
+              | None => Some c
+              | Some d => if rank c <=? rank d then Some c else Some d
+              end
+  end.
+
 (* peer ids are compared as byte strings (slices.Sort on peer.ID); code = order-preserving and
    injective for ids of at most 40 bytes: value of the id right-padded with zeros, then the length *)
 Definition peer_code (bytes : list N) : Z :=
